@@ -194,6 +194,109 @@ mod proofs {
     std::mem::forget(g);
   }
 
+  /// Level order keeps a `VecDeque` of nodes; with a symbolic *shape* the CBMC instance
+  /// exhausts 24 GB already at 3 nodes (measured).  Here every pre-order shape of <= 4
+  /// nodes (9 shapes) and every start node are enumerated by concrete loops, while kinds,
+  /// named bits (hence `named_child_count`), widths and gaps stay symbolic: whatever the
+  /// traversal decides from node *labels* is decided by the solver, its dependence on
+  /// the *shape* is covered shape by shape.
+  fn level_shapes(nmax: usize) {
+    let mut pv = [[0u8; MAXN]; 9];
+    let mut ns = [0usize; 9];
+    let mut cnt = 0;
+    // enumerate parent vectors p[1..n), p[i] < i, pre-order condition
+    let mut n = 1;
+    while n <= nmax {
+      let mut p1 = 0;
+      while p1 < 1 {
+        let mut p2 = 0;
+        while p2 < 2 {
+          let mut p3 = 0;
+          while p3 < 3 {
+            let mut parent = [0u8; MAXN];
+            parent[1] = p1;
+            parent[2] = p2;
+            parent[3] = p3;
+            let fresh = (n > 2 || p2 == 0) && (n > 3 || p3 == 0);
+            if fresh && TreeData::is_preorder(n, &parent) {
+              pv[cnt] = parent;
+              ns[cnt] = n;
+              cnt += 1;
+            }
+            p3 += 1;
+          }
+          p2 += 1;
+        }
+        p1 += 1;
+      }
+      n += 1;
+    }
+    assert!(cnt == 9 || nmax < 4);
+    // symbolic labels shared by all shapes
+    let mut named = [true; MAXN];
+    let mut width = [1u8; MAXN];
+    let mut i = 0;
+    while i < 4 {
+      named[i] = kani::any();
+      let w: u8 = kani::any();
+      kani::assume(w <= 2);
+      width[i] = w;
+      i += 1;
+    }
+    let mut sidx = 0;
+    while sidx < cnt {
+      let n = ns[sidx];
+      let parent = pv[sidx];
+      let mut d = TreeData::from_parents(n, &parent);
+      let mut i = 0;
+      while i < 4 {
+        d.nodes[i].named = named[i];
+        i += 1;
+      }
+      let total = d.layout(&width, &[0; MAXN]) as usize;
+      d.fix_named_counts();
+      let (last, depth) = subtree_info(n, &parent);
+      let g = mk_grep(&SRC_X[..total], d);
+      let mut start = 0;
+      while start < n {
+        let node = node_at(&g, start);
+        let mut pos = [usize::MAX; MAXN];
+        let mut count = 0;
+        let mut it = Level::new(&node);
+        while let Some(v) = it.next() {
+          let vi = idx_of(&v);
+          assert!(vi >= start && vi <= last[start]);
+          assert!(pos[vi] == usize::MAX);
+          pos[vi] = count;
+          count += 1;
+        }
+        std::mem::forget(it);
+        assert!(count == last[start] - start + 1, "level order must visit the whole subtree");
+        let mut u = start;
+        while u <= last[start] {
+          let mut v = u + 1;
+          while v <= last[start] {
+            assert!((pos[u] < pos[v]) == (depth[u] <= depth[v]));
+            v += 1;
+          }
+          u += 1;
+        }
+        if n == 4 && start == 0 {
+          kani::cover!(!named[1] && !named[2] && !named[3]);
+        }
+        start += 1;
+      }
+      std::mem::forget(g);
+      sidx += 1;
+    }
+  }
+
+  #[kani::proof]
+  #[kani::unwind(10)]
+  fn c19_level_order_shapes_n4() {
+    level_shapes(4);
+  }
+
   #[kani::proof]
   #[kani::unwind(10)]
   fn c19_children_parent_n4() {
